@@ -20,6 +20,7 @@ pub enum LTy {
     Ext(String),
     Opt(Box<LTy>),
     Io(Box<LTy>),
+    List(Box<LTy>),
     Unknown,
 }
 
@@ -36,6 +37,7 @@ impl LTy {
             LTy::Ext(n) => n.clone(),
             LTy::Opt(t) => format!("(Option {})", t.lean()),
             LTy::Io(t) => format!("(Rs.IoRes {})", t.lean()),
+            LTy::List(t) => format!("(List {})", t.lean()),
             LTy::Unknown => "_".into(),
         }
     }
@@ -83,6 +85,21 @@ fn ext_type(name: &str) -> Option<&'static str> {
         "Cipher" => "Rs.AesBlock",
         _ => return None,
     })
+}
+
+/// vocabulary enums (Lean type → variants with their payload types), matched like translated enums
+pub fn ext_enum(lean_ty: &str) -> Option<Vec<(String, Vec<LTy>)>> {
+    match lean_ty {
+        // `std::path::Component` (payloads: the bytes of the `OsStr`)
+        "Rs.Component" => Some(vec![
+            ("Prefix".into(), vec![LTy::Bytes]),
+            ("RootDir".into(), vec![]),
+            ("CurDir".into(), vec![]),
+            ("ParentDir".into(), vec![]),
+            ("Normal".into(), vec![LTy::Bytes]),
+        ]),
+        _ => None,
+    }
 }
 
 /// how a vocabulary method treats its receiver
@@ -189,6 +206,8 @@ pub fn lty(t: &Type, tparams: &[String], self_ty: Option<&LTy>, reg: &Registry, 
                 }
             }
             match n.as_str() {
+                // strings are their UTF-8 bytes, Unix paths the bytes of their `OsStr`
+                "String" | "str" | "Path" | "PathBuf" if args.is_empty() => LTy::Bytes,
                 "Box" if args.len() == 1 => {
                     if let Type::TraitObject(to) = args[0] {
                         for b in &to.bounds {
